@@ -131,7 +131,10 @@ type Program struct {
 	Base string `json:"-"`
 	// AliasImports: the helper packages are imported under local names that
 	// differ from their package names (fns ".../ha", vis ".../hc").
-	AliasImports   bool     `json:"alias_imports,omitempty"`
+	AliasImports bool `json:"alias_imports,omitempty"`
+	// LineDirs: //line comments between the directive's arguments announce
+	// decreasing line numbers of another file (as preprocessor output does).
+	LineDirs       bool     `json:"line_dirs,omitempty"`
 	inHelper       bool     // printing a signature inside the helper package
 	Features       []string `json:"features,omitempty"`
 	NumFns         int      `json:"num_fns"`
